@@ -28,7 +28,8 @@ def label (sh : Sh) (pc : Pc) (e : Env) : Label :=
   | .wake1 w _, _ => { kind := "blk", obj := "tp", inst := bl w, op := "unpark" }
   | .wake2 w _, _ => { obj := "sync.blocking.unparked", inst := bl w, op := "store", a1 := .num 1, ord := "Release" }
   | .wake3 w _, _ => { obj := "sync.blocking.release", inst := bl w, op := "swap", a1 := .num 0, res := .num (b2i (sh.release w)), ord := "Acquire" }
-  | .w5park b, .abort => { kind := "blk", obj := "tp", inst := bl b, op := "park_return", res := .num 0 }
+  | .w5park b, .abort | .w5park b, .abortIgnore => { kind := "blk", obj := "tp", inst := bl b, op := "park_return", res := .num 0 }
+  | .i6load b, _ => { obj := "sync.blocking.unparked", inst := bl b, op := "load", res := .num (b2i (sh.unparked b)), ord := "Acquire" }
   | .w5park b, _ => { kind := "blk", obj := "tp", inst := bl b, op := "park_return", res := .num 1 }
   | .w6load b, _ | .w8load b, _ => { obj := "sync.blocking.unparked", inst := bl b, op := "load", res := .num (b2i (sh.unparked b)), ord := "Acquire" }
   | .w7set b, _ => { obj := "sync.blocking.release", inst := bl b, op := "store", a1 := .num 1, ord := "Release" }
@@ -38,13 +39,13 @@ def label (sh : Sh) (pc : Pc) (e : Env) : Label :=
 def pcName : Pc → String
   | .idle => "idle" | .m0cas => "m0cas" | .t0cas => "t0cas" | .w1push _ => "w1push" | .w2fsub _ => "w2fsub"
   | .w3pop _ => "w3pop" | .wake1 .. => "wake1" | .wake2 .. => "wake2" | .wake3 .. => "wake3"
-  | .w5park _ => "w5park" | .w6load _ => "w6load" | .w7set _ => "w7set" | .w8load _ => "w8load"
+  | .w5park _ => "w5park" | .i6load _ => "i6load" | .w6load _ => "w6load" | .w7set _ => "w7set" | .w8load _ => "w8load"
   | .w9swap _ => "w9swap" | .p0fadd _ => "p0fadd" | .held => "held"
 
 def envsFor : Pc → List Env
   | .idle => [.startLock, .startTry]
   | .held => [.unlock]
-  | .w5park _ => [.go, .abort]
+  | .w5park _ => [.go, .abort, .abortIgnore]
   | _ => [.go]
 
 /-- transition name for coverage: pc plus the branch taken -/
@@ -54,7 +55,8 @@ def transName (sh : Sh) (pc : Pc) (e : Env) : String :=
     | .m0cas, _ | .t0cas, _ => if sh.cnt = 1 then "/ok" else "/fail"
     | .w2fsub _, _ => if sh.cnt > 0 then "/selfserve" else "/park"
     | .wake3 w _, _ | .w9swap w, _ => if sh.release w then "/repost" else "/done"
-    | .w5park _, .abort => "/abort" | .w5park _, _ => "/woken"
+    | .w5park _, .abort => "/abort" | .w5park _, .abortIgnore => "/abort-ignored" | .w5park _, _ => "/woken"
+    | .i6load b, _ => if sh.unparked b then "/keep" else "/park-again"
     | .w6load b, _ | .w8load b, _ => if sh.unparked b then "/unparked" else "/not"
     | .p0fadd _, _ => if sh.cnt < 0 then "/wake" else "/free"
     | _, _ => ""
@@ -85,16 +87,63 @@ def cands (s : St) (t : Nat) (ev : Event) : List (Label × St × String) :=
       | some s' => some (label s.sh pc e, s', transName s.sh pc e)
       | none => none
 
+/-- replay state: the model state plus the mode of the trace. In LIVE traces (`live=1` in the scenario header, filter
+    `sync/mutex.rs`, `sync/blocking.rs`) the blocker's own park/unpark operations produce no events (`Park` is filtered
+    out, `ThreadPark` is real), so `wake1` (blocker.unpark), the return of `park` and the abort (`Env.abort` = `park`
+    returned `Err(Canceled)`) are SILENT model steps: when the actor's next event does not match at such a pc, the
+    machine takes the silent step first and then matches. -/
+structure RSt where
+  st : St
+  live : Bool
+
+/-- the silent steps available to actor `t` (live mode only): successor state and the name of the step -/
+def silent (s : St) (t : Nat) : List (St × String) :=
+  match s.pcs t with
+  | .wake1 _ _ => match step s t .go with
+    | some s' => [(s', "wake1~")]
+    | none => []
+  | .w5park b =>
+    -- the waker's `blocker.unpark()` is silent too: if the token is not there yet, the actor that popped `b` delivers it first
+    let woken : Option St :=
+      if s.sh.tok b then step s t .go
+      else ((List.range s.n).find? fun u => match s.pcs u with | .wake1 w _ => w == b | _ => false).bind fun u =>
+        (step s u .go).bind fun s1 => step s1 t .go
+    (match woken with | some s' => [(s', "w5park/woken~")] | none => []) ++
+    (match step s t .abort with | some s' => [(s', "w5park/abort~")] | none => []) ++
+    -- cancelled while cancellation is disabled (re-lock inside Condvar::wait): the `b_ignore` path
+    (match step s t .abortIgnore with | some s' => [(s', "w5park/abort-ignored~")] | none => [])
+  -- a cancelled holder drops its guard while unwinding: no `call mutex.unlock` announces the unlock
+  | .held => match step s t .unlock with
+    | some s' => [(s', "held/unwind~")]
+    | none => []
+  | _ => []
+
+def candsR (r : RSt) (t : Nat) (ev : Event) : List (Label × RSt × String) :=
+  let direct := (cands r.st t ev).map fun (l, s', nm) => (l, { r with st := s' }, nm)
+  if !r.live then direct
+  else
+    direct ++ (silent r.st t).flatMap fun (s1, nm1) =>
+      (cands s1 t ev).map fun (l, s', nm) => (l, { r with st := s' }, nm1 ++ "+" ++ nm)
+
+/-- trace actor ↦ model actor: threads `t<k>`; in live traces also coroutines named `c<k>` (`c:c<k>`), one index space -/
+def actorOf (r : RSt) (a : String) : Option Nat :=
+  let idx : Option Nat :=
+    if a.startsWith "t" then (a.drop 1).toString.toNat?
+    else if r.live && a.startsWith "c:c" then (a.drop 3).toString.toNat?
+    else none
+  idx.bind fun t => if t < r.st.n then some t else none
+
 def machine : Machine where
-  St := St
+  St := RSt
   init := fun h => match hnat h "actors" with
-    | some n => .ok (init n 1)
+    | some n => .ok { st := init n 1, live := hget h "live" == some "1" }
     | none => .error "mutex scenario without actors="
-  actor := fun s a => if a.startsWith "t" then ((a.drop 1).toString.toNat?).bind (fun t => if t < s.n then some t else none) else none
-  cands := cands
-  inv := fun s => if holders s > 1 then some "two holders" else if s.sh.dup then some "double re-post" else none
-  where_ := fun s t => pcName (s.pcs t)
-  atEnd := fun s => if (List.range s.n).all (fun t => s.pcs t == .idle) then
+  actor := actorOf
+  cands := candsR
+  inv := fun r => if holders r.st > 1 then some "two holders" else if r.st.sh.dup then some "double re-post" else none
+  where_ := fun r t => pcName (r.st.pcs t)
+  atEnd := fun r => let s := r.st
+    if (List.range s.n).all (fun t => s.pcs t == .idle) then
       (if s.sh.cnt == 1 && s.sh.q.isEmpty then none else some s!"all idle but cnt={s.sh.cnt} |q|={s.sh.q.length}")
     else some "not every actor is idle at the end of a finished run"
   skip := fun e => e.kind == "note"
